@@ -151,7 +151,9 @@ def proof_check(ctx, extra_targets=()):
     """Build Props/<prop>.vo and audit it. On failure records ctx.broken and returns False."""
     prop = ctx.prop
     t = time.time()
-    ok, log = coq_make(["theories/Props/%s.vo" % prop] + list(extra_targets))
+    # the evaluators used by coq_eval (Run/*.vo) are built together with the property file
+    run_targets = ["theories/Run/" + f + "o" for f in sorted(os.listdir(os.path.join(COQ, "theories", "Run"))) if f.endswith(".v")]
+    ok, log = coq_make(["theories/Props/%s.vo" % prop] + run_targets + list(extra_targets))
     ctx.cov["coq_build_s"] = round(time.time() - t, 1)
     if not ok:
         m = re.findall(r'File "([^"]+)", line (\d+)', log)
